@@ -9,10 +9,14 @@ import (
 )
 
 // R-PREFIX: byte prefixes are converted to nibbles exactly (no trimming) before reaching the internal walkers.
-func (c *Ctx) rulePrefix() {
+func (c *Ctx) rulePrefix(only ...string) {
 	c.doc("R-PREFIX", "in GetKeysWithPrefix/ClearPrefix/ClearPrefixLimit/PrefixedIter the nibble prefix handed to the walker is codec.KeyLEToNibbles(param) through identity flow only; a bytes.Trim*/re-slice in between changes which keys match byte-wise")
 	walkers := map[string]int{"getKeysWithPrefix": 2, "clearPrefixLimitAtNode": 2, "clearPrefixAtNode": 2, "WithCursorAt": 0}
-	for _, name := range []string{"(*InMemoryTrie).GetKeysWithPrefix", "(*InMemoryTrie).ClearPrefix", "(*InMemoryTrie).ClearPrefixLimit", "(*InMemoryTrie).PrefixedIter"} {
+	names := []string{"(*InMemoryTrie).GetKeysWithPrefix", "(*InMemoryTrie).ClearPrefix", "(*InMemoryTrie).ClearPrefixLimit", "(*InMemoryTrie).PrefixedIter"}
+	if len(only) > 0 {
+		names = only
+	}
+	for _, name := range names {
 		f := c.fn(inmemDir, name)
 		if f == nil {
 			continue
@@ -62,9 +66,13 @@ func (c *Ctx) rulePrefix() {
 
 // R-PREORDER: recursive walkers that must consume keys in ascending order handle the node's own value before its
 // children.
-func (c *Ctx) rulePreorder() {
+func (c *Ctx) rulePreorder(only ...string) {
 	c.doc("R-PREORDER", "in addAllKeys and deleteNodesLimit a nil-test of the branch's own StorageValue dominates the recursive call on the children (a branch's key is the smallest key of its subtree)")
-	for _, name := range []string{"addAllKeys", "(*InMemoryTrie).deleteNodesLimit"} {
+	pnames := []string{"addAllKeys", "(*InMemoryTrie).deleteNodesLimit"}
+	if len(only) > 0 {
+		pnames = only
+	}
+	for _, name := range pnames {
 		f := c.fn(inmemDir, name)
 		if f == nil {
 			continue
